@@ -13,6 +13,11 @@ Design (executable Lean, nothing here is proved):
   check compares with the real output of the unit.  `apply` spreads its last operand.  The library procedures S defines in
   the object language (`Base.preludeSrc`: map, filter, foldl, foldr, for-each, reduce) are not built in here: the check
   prepends them to the replayed program as its first compilation unit, compiled by the real compiler like user code.
+* MODULE MODE (`(require "file")`, what `steel file.scm` does): mangled `##mm…` globals are ordinary slots; an import
+  `(%proto-hash-get% __module-… 'name)` yields the built-in `name`; export tables are opaque; the specialised op codes
+  (`ADD`, `SUB`, `MUL`, `LTE`, `NUMEQUAL`, `CAR`, `CDR`, `CONS`, `LIST`, `NULL`, `NOT`, `VECTORREF`, `CALLPRIMITIVE`, …) name the
+  built-in they stand for in their text column (`#%prim.NAME`) and are executed as the call of that built-in through the
+  shared primitive table; `SELFTAILCALLNOARITY` = `TCOJMP`.
 * OP CODES: the 47 of the core model with the same behaviour as `C01C.step` (same order of effects, same frame
   discipline; arrays instead of lists), plus `FUNCNOARITY`, `TAILCALLNOARITY`, `CALLGLOBALNOARITY`,
   `CALLGLOBALTAILNOARITY` (= the checked forms; the compiler emits them where it has compared the operand count itself).
@@ -89,7 +94,14 @@ def cloIdx? : Val → Option Nat
   | .prim n => if n.startsWith cloTag then (n.drop 1).toString.toNat? else none
   | _ => none
 
-def controlNames : List String := ["*reset", "*shift", "call-with-exception-handler"]
+def controlNames : List String :=
+  ["*reset", "*shift", "call-with-exception-handler", "%proto-hash-get%", "%proto-hash%", "#%void",
+   "#%push-module-context", "#%pop-module-context"]
+
+def primPrefix : String := "#%prim."
+/-- `#%prim.NAME` in the text column: the instruction is the inlined / direct call of the built-in NAME. -/
+def primOfText (t : String) : Option String :=
+  if t.startsWith primPrefix then some (t.drop primPrefix.length).toString else none
 def isBuiltinName (n : String) : Bool := primNames.contains n || controlNames.contains n
 
 def errKindOf (payload : Val) : String :=
@@ -104,13 +116,15 @@ def xLookupG (g : Nat) : List (Nat × Val) → Option Val
 
 /-- The value of global slot `g` (`name` = text column of the instruction). -/
 def globalOf (st : XSt) (g : Nat) (name : String) : Except (Option String) Val :=
+  let name := (primOfText name).getD name      -- module code names built-ins `#%prim.NAME`
   match xLookupG g st.globals with
   | some v => .ok v
   | none =>
     if g < st.limit then
       -- steel's `void` is the void VALUE, not a procedure (`(void)` is an application of a non-procedure)
       if name == "void" then .ok .void
-      else if isBuiltinName name then .ok (.prim name) else .error (some s!"builtin:{name}")
+      else if name.startsWith "__module-" then .ok (.sym name)      -- a module's export table: opaque
+      else .ok (.prim name)         -- a built-in the model does not have is reported when it is CALLED (`prim:NAME`)
     else .error none       -- free identifier
 
 def spOfX : List XFrame → Nat
@@ -221,6 +235,16 @@ partial def callV (c : XCfg) (stack : Array Val) (f : Val) (n : Nat) (retIp : Na
             -- run the body of the shift in the frame of the reset; its continuation argument is the identity
             enterClo { c with frames := fr :: rest } (c.stack.extract 0 fr.sp) k #[.prim "#%mk"] 0 true
     | .prim "#%mk" => if n != 1 then .unmod "continuation-arity" else result args[0]! c.st
+    -- module plumbing of `(require "file")`: export tables are opaque, an import of a built-in module yields the built-in
+    | .prim "#%void" | .prim "#%push-module-context" | .prim "#%pop-module-context" => result .void c.st
+    | .prim "%proto-hash%" => result (.sym "__module-table") c.st
+    | .prim "%proto-hash-get%" =>
+        match args.toList with
+        | [.sym m, .sym nm] =>
+            if !m.startsWith "__module-" then .unmod "hash-get" else
+            if nm == "void" then result .void c.st
+            else result (.prim nm) c.st      -- a built-in the model does not have is reported when it is CALLED
+        | _ => .unmod "hash-get"
     | .prim name =>
         match applyPrim name args.toList c.st.bst with
         | some (.ok (v, bst)) => result v { c.st with bst := bst }
@@ -238,12 +262,20 @@ def readConst (text : String) : Option Val :=
   | some [.chr ch] => some (.chr ch)
   | _ => if text == "#<void>" then some .void else none
 
+/-- Specialised op codes that occurred in module-mode listings; each carries `#%prim.NAME` in its text column and is
+executed as the call of NAME (`xStep`, last arm) — any other op code with such a text column is accepted the same way. -/
+def specialisedOps : List String :=
+  ["ADD", "SUB", "MUL", "LTE", "LT", "GT", "GTE", "NUMEQUAL", "NOT", "CAR", "CDR", "CONS", "LIST", "NULL", "VECTORREF",
+   "EQUAL2", "CALLPRIMITIVE", "SELFTAILCALLNOARITY"]
+
 def xOps : List String :=
   modelledOpNames ++ ["FUNCNOARITY", "TAILCALLNOARITY", "CALLGLOBALNOARITY", "CALLGLOBALTAILNOARITY"]
 
 /-- One listing line → extended instruction (global slots remapped like in `toInstr`). -/
 def toXI (rm : Remap) (l : Line) : Except String XI :=
-  if !xOps.contains l.op then .error l.op
+  if (primOfText l.text).isSome && !xOps.contains l.op then .ok { op := l.op, p := l.payload, name := l.text }
+  else if l.op == "SELFTAILCALLNOARITY" then .ok { op := "TCOJMP", p := l.payload, name := l.text }
+  else if !xOps.contains l.op then .error l.op
   else if l.op == "PUSHCONST" then
     match readConst l.text with
     | some v => .ok { op := l.op, p := l.payload, k := v }
@@ -410,7 +442,15 @@ def xStep (c : XCfg) : XRes :=
         | some _, .error (some why) => .unmod why
         | some _, .error none => .err "free" (mkErr "free identifier") c
         | none, _ => .unmod "bad:empty-stack"
-    | other => .unmod s!"bad:dispatch:{other}"
+    | other =>
+        -- a specialised op code (ADD, SUB, MUL, NUMEQUAL, LTE, CAR, CONS, LIST, NULL, NOT, CALLPRIMITIVE, …): its text
+        -- column names the built-in it stands for, the next word (PASS n / FUNC n / TAILCALL n) carries the operand
+        -- count: it IS the call of that built-in
+        match primOfText ins.name, c.code[c.ip + 1]? with
+        | some nm, some w =>
+            let tail := other.endsWith "TAIL" || w.op == "TAILCALL"
+            callV c c.stack (if nm == "void" then .void else .prim nm) w.p (c.ip + 2) tail tail
+        | _, _ => .unmod s!"bad:dispatch:{other}"
 
 inductive XOut where
   | ok (v : Val) (st : XSt)
